@@ -23,7 +23,7 @@ LEVEL_TEXT = {
  "C17": "Symbolic evaluation of the real console route table, role tables and login middleware source into SMT: unchecked API routes, role monotonicity, write protection, unknown roles, multi-role union, middleware decision; counterexamples confirmed against the real predicates.",
  "C18": "Symbolic evaluation of the privilege algebra and the two listing filters from the real source with an arbitrary privilege group and namespace string. Plus the way a restriction travels from the administrator's create / update request through the stored user record into a new session's group (replayed on a real single-node application). And the console handlers' call sites: every handler whose request names a namespace reaches the data layer only behind a successful permission check on that namespace (43 handlers evaluated from source, including the handler functions of other modules that console routes point to; violations replayed on the real handlers with a restricted session; 9 MCP handlers and 4 mounted OpenAPI handlers are known findings). And the composed configuration key: a key that passed ConfigKey::is_valid survives build_key -> from for arbitrary strings, and a handler hands a key built from request strings to the raft route only behind that gate.",
  "C19": "Bounded model checking (Kani/CBMC) of SeqGroup under every schedule of the SequenceManager protocol and of SimpleSequence under leader change / snapshot / replay histories, plus symbolic evaluation of ConfigActor::set_config for the replicated high-water mark, of the replicated sequence table (every history of 4-5 requests incl. snapshot + load) and of two nodes' SequenceManagers in front of it (every schedule of 7-9 requests / fetch completions / self-sent fills, then a drain).",
- "C20": "Bounded model checking (Kani/CBMC): varint writer/reader/size agree for all 2^64 values; the reader's buffer compaction keeps the unread remainder for every buffer content and read position; MessageBufReader decodes every well-formed 8-byte stream identically to a reference decoder under fixed-size chunked reads for both consumer protocols of the repository; bounded symbolic execution (rs2smt + z3) of FileMessageReader over a file model: files of 2-3 records including records shorter than the 10-byte length peek, with and without zero padding; the snapshot reader and the naming metadata files (records file and file map) at the source's own 1024-byte chunk size.",
+ "C20": "Bounded model checking (Kani/CBMC): varint writer/reader/size agree for all 2^64 values; the reader's buffer compaction keeps the unread remainder for every buffer content and read position; MessageBufReader decodes every well-formed 8-byte stream identically to a reference decoder under fixed-size chunked reads for both consumer protocols of the repository; bounded symbolic execution (rs2smt + z3) of FileMessageReader over a file model: files of 2-3 records including records shorter than the 10-byte length peek, with and without zero padding; the snapshot reader, the naming metadata files (records file and file map) and the transfer files (both readers) at the source's own 1024-byte chunk size.",
 }
 NA = {
  "C04": "crash points between file writes: needs the file-level scenarios of the log file (beyond Kani's memory reach at the 4096/1024/1 MB layout) or cross-file orders that exist only as actor message schedules; see DESIGN.md section 4",
